@@ -32,12 +32,12 @@ type OverlaySpec struct {
 }
 
 type TierSpec struct {
-	Params    map[string]int64 `json:"params"`
-	MaxPaths  int              `json:"max_paths"`
-	Budget    int64            `json:"budget"`
-	Skip      bool             `json:"skip"`
-	MinPaths  int              `json:"min_paths"`
-	Validate  int              `json:"validate"` // number of passing paths to validate natively (-1 = none)
+	Params   map[string]int64 `json:"params"`
+	MaxPaths int              `json:"max_paths"`
+	Budget   int64            `json:"budget"`
+	Skip     bool             `json:"skip"`
+	MinPaths int              `json:"min_paths"`
+	Validate int              `json:"validate"` // number of passing paths to validate natively (-1 = none)
 }
 
 type RunSpec struct {
@@ -50,21 +50,21 @@ type RunSpec struct {
 }
 
 type Spec struct {
-	Property   string        `json:"property"`
-	Level      string        `json:"level"`
-	Dir        string        `json:"dir"`
-	Patterns   []string      `json:"patterns"`
-	Tags       []string      `json:"tags"`
-	InterpPkgs []string      `json:"interp_pkgs"`
-	Overlays   []OverlaySpec `json:"overlays"`
-	Runs       []RunSpec     `json:"runs"`
-	Assumptions []string     `json:"assumptions"`
-	Models     []string      `json:"models_used"`
-	Bounds     map[string]interface{} `json:"bounds"`
-	Rule       string        `json:"rule"`
-	TimeoutMs  int           `json:"solver_timeout_ms"`
-	Solver     string        `json:"solver"`
-	WallS      map[string]int `json:"wall_guard_s"`
+	Property    string                 `json:"property"`
+	Level       string                 `json:"level"`
+	Dir         string                 `json:"dir"`
+	Patterns    []string               `json:"patterns"`
+	Tags        []string               `json:"tags"`
+	InterpPkgs  []string               `json:"interp_pkgs"`
+	Overlays    []OverlaySpec          `json:"overlays"`
+	Runs        []RunSpec              `json:"runs"`
+	Assumptions []string               `json:"assumptions"`
+	Models      []string               `json:"models_used"`
+	Bounds      map[string]interface{} `json:"bounds"`
+	Rule        string                 `json:"rule"`
+	TimeoutMs   int                    `json:"solver_timeout_ms"`
+	Solver      string                 `json:"solver"`
+	WallS       map[string]int         `json:"wall_guard_s"`
 }
 
 type KnownFinding struct {
@@ -143,39 +143,39 @@ func (w *worker) stop() {
 }
 
 type violGroup struct {
-	Sched []int
-	V     interp.Violation
-	Run   string
-	Func  string
-	Pkg   string
-	Count int
+	Sched  []int
+	V      interp.Violation
+	Run    string
+	Func   string
+	Pkg    string
+	Count  int
 	Params map[string]int64
 }
 
 type runStats struct {
-	Name        string
-	Paths       int
-	Ok          int
-	Infeasible  int
-	Decisions   int64
-	Instrs      int64
-	Asserts     int64
-	AssertQ     int64
-	Covers      map[string]int
-	Outcomes    map[string]int
-	Samples     []map[string]interface{}
-	Validated   int
-	ValidateMismatch int
-	Exhaustive  bool
-	Funcs       map[string]int64
-	Hashes      int64
-	Unknowns    int
+	Name                                                string
+	Paths                                               int
+	Ok                                                  int
+	Infeasible                                          int
+	Decisions                                           int64
+	Instrs                                              int64
+	Asserts                                             int64
+	AssertQ                                             int64
+	Covers                                              map[string]int
+	Outcomes                                            map[string]int
+	Samples                                             []map[string]interface{}
+	Validated                                           int
+	ValidateMismatch                                    int
+	Exhaustive                                          bool
+	Funcs                                               map[string]int64
+	Hashes                                              int64
+	Unknowns                                            int
 	QSat, QUnsat, QUnknown, QFallback, QCross, SolverNs int64
-	WallS       float64
-	Params      map[string]int64
-	inconclusive []string
-	passing     []passRec
-	DistinctSig map[string]bool
+	WallS                                               float64
+	Params                                              map[string]int64
+	inconclusive                                        []string
+	passing                                             []passRec
+	DistinctSig                                         map[string]bool
 }
 
 type passRec struct {
